@@ -104,3 +104,21 @@ Definition project (s : fstate) (ds : dstate) : fstate :=
   {| s_regs := s_regs s; s_manual := map (manual_out ds) (g_footnotes (s_regs s));
      s_auto := map (auto_out ds) (g_autofootnotes (s_regs s)); s_layout := s_layout s;
      s_warn := s_warn s ++ ds_errors ds |}.
+
+(* field setters used by the translation of docutils/nodes.py: the note_ methods of class document *)
+Definition set_footnotes (g : regs) (l : list fn) : regs :=
+  {| g_nameids := g_nameids g; g_autofootnotes := g_autofootnotes g; g_footnotes := l;
+     g_autofootnote_refs := g_autofootnote_refs g; g_footnote_refs := g_footnote_refs g;
+     g_allrefs := g_allrefs g; g_nrefs := g_nrefs g; g_warn := g_warn g |}.
+Definition set_autofootnote_refs (g : regs) (l : list rf) : regs :=
+  {| g_nameids := g_nameids g; g_autofootnotes := g_autofootnotes g; g_footnotes := g_footnotes g;
+     g_autofootnote_refs := l; g_footnote_refs := g_footnote_refs g;
+     g_allrefs := g_allrefs g; g_nrefs := g_nrefs g; g_warn := g_warn g |}.
+Definition set_footnote_refs (g : regs) (d : list (str * list rf)) : regs :=
+  {| g_nameids := g_nameids g; g_autofootnotes := g_autofootnotes g; g_footnotes := g_footnotes g;
+     g_autofootnote_refs := g_autofootnote_refs g; g_footnote_refs := d;
+     g_allrefs := g_allrefs g; g_nrefs := g_nrefs g; g_warn := g_warn g |}.
+Definition set_nameids (g : regs) (l : list str) : regs :=
+  {| g_nameids := l; g_autofootnotes := g_autofootnotes g; g_footnotes := g_footnotes g;
+     g_autofootnote_refs := g_autofootnote_refs g; g_footnote_refs := g_footnote_refs g;
+     g_allrefs := g_allrefs g; g_nrefs := g_nrefs g; g_warn := g_warn g |}.
